@@ -901,6 +901,11 @@ _STDLIB_FROM = {("io", "BytesIO"): _io.BytesIO, ("struct", "calcsize"): struct.c
                 ("math", "log10"): math.log10, ("re", "compile"): re.compile}
 
 
+# pure alternative constructors / class-level functions of the built-in types
+_TYPE_CALLABLES = {(int, "from_bytes"): int.from_bytes, (bytes, "fromhex"): bytes.fromhex, (bytearray, "fromhex"): bytearray.fromhex,
+                   (dict, "fromkeys"): dict.fromkeys, (bytes, "maketrans"): bytes.maketrans, (str, "maketrans"): str.maketrans}
+
+
 class _Link:
     """lazy reference to a global of another interpreted module"""
 
@@ -1059,6 +1064,8 @@ class MiniVM:
             if name.startswith("__") and name not in ("__class__", "__name__"):
                 raise VMError(f"dunder access .{name}")
             return getattr(v, name)
+        if isinstance(v, type) and (v, name) in _TYPE_CALLABLES:
+            return _TYPE_CALLABLES[(v, name)]
         raise VMError(f"attribute .{name} of {type(v).__name__}")
 
     @staticmethod
@@ -1127,7 +1134,7 @@ class MiniVM:
         if callable(fn):
             mod = getattr(fn, "__module__", None)
             selfobj = getattr(fn, "__self__", None)
-            ok = fn in _BUILTINS.values() or fn in _STDLIB_FROM.values() or mod in ("math", "re", "_struct", "struct", "binascii", "_sre") \
+            ok = fn in _BUILTINS.values() or fn in _STDLIB_FROM.values() or any(fn == t for t in _TYPE_CALLABLES.values()) or mod in ("math", "re", "_struct", "struct", "binascii", "_sre") \
                 or isinstance(selfobj, _NATIVE_TYPES) or isinstance(selfobj, VMStub) or selfobj in _STDLIB.values() \
                 or getattr(fn, "__name__", "") == "<lambda>"
             if not ok:
